@@ -153,6 +153,18 @@ theorem step_blacklist {s : State} {op : Op} {a : Nat} (h : a ∈ s.blacklist) (
       · cases hf
       · cases hf; exact h
     · exact h
+  | addGauge g =>
+    simp only [step]; split
+    · rename_i s1 hg; obtain ⟨⟨inc, rfl⟩, _, _⟩ := addGauge_ok hg; exact h
+    · exact h
+  | addRollapp r =>
+    simp only [step]; split
+    · rename_i s1 hr; obtain ⟨_, rfl⟩ := addRollapp_ok hr; exact h
+    · exact h
+  | setParams ma mv =>
+    simp only [step]; split
+    · rename_i s1 hp; obtain ⟨rfl, _⟩ := setParams_ok hp; exact h
+    · exact h
 
 theorem run_blacklist {s : State} {ops : List Op} {a : Nat} (h : a ∈ s.blacklist)
     (he : ∀ op ∈ ops, isEpochEnd op = false) : a ∈ (run s ops).blacklist := by
@@ -356,5 +368,8 @@ theorem claims_bound {gid r : Nat} {e : Endorsement} {R : Int} (hR : 0 ≤ R) (h
     | slash fin => have := hall (.slash fin) (by simp); simp [isClaim] at this
     | epochEnd d => have := hall (.epochEnd d) (by simp); simp [isClaim] at this
     | fund g amt => have := hall (.fund g amt) (by simp); simp [isClaim] at this
+    | addGauge g => have := hall (.addGauge g) (by simp); simp [isClaim] at this
+    | addRollapp r => have := hall (.addRollapp r) (by simp); simp [isClaim] at this
+    | setParams ma mv => have := hall (.setParams ma mv) (by simp); simp [isClaim] at this
 
 end DymVerif.Spons
